@@ -8,7 +8,10 @@ ids = sorted(d for d in os.listdir(root) if os.path.isdir(os.path.join(root, d))
 for sid in ids:
     m = json.load(open(os.path.join(root, sid, 'meta.json')))
     r = res.get(sid, {})
-    rows.append('| %s | %s | %s | %s |' % (sid, m['property'], m['needs_to_manifest'].replace('|', '/'),
+    needs = ' '.join(m['needs_to_manifest'].replace('|', '/').split())
+    if len(needs) > 330:
+        needs = needs[:327] + '...'
+    rows.append('| %s | %s | %s | %s |' % (sid, m['property'], needs,
                 'caught by `bin/check %s` (quick)' % m['property'] if r.get('detected') else 'NOT caught'))
 st = json.load(open('/verif/selftest/RESULTS.json'))
 sys.path.insert(0, '/verif/selftest')
@@ -45,12 +48,19 @@ Each change was written by a fresh sub-agent that was given only the text of one
 its own scratch worktree of /repo (nothing from /verif), with the request for a realistic change
 that still compiles and passes the existing tests and needs something specific to manifest (round
 1: two per property; round 2: three per property, at least one with two cooperating sites, one in
-a rarely used entry point, one depending on a history / schedule / ordering).  Each was confirmed
+a rarely used entry point, one depending on a history / schedule / ordering; round 3 (ids f-h): three
+per property, each breaking a different clause of the statement; round 4 (ids i-k): three per
+property, built to escape exhaustive small-scope enumeration and moderate random testing - scale,
+rare values, long histories; round 5 (ids l-n): a conjunction of two individually unremarkable
+conditions, a dependence on history or a less-travelled route to the same logic, and the subtlest
+change the agent could devise against "all small inputs plus hundreds of thousands of random inputs
+of up to 100 KB with odd Unicode, limit numbers and power-of-two sizes").  Each was confirmed
 here with `tools/confirm_seed.py` in the scratch worktree: the demonstration passes on unmodified
 HEAD, the whole existing suite (lib, integration and doc-tests: 139 tests) passes with the patch,
 the demonstration fails with the patch.  Kept as `seeded/<id>/{patch.diff, demo.rs, note.txt,
 meta.json}`.  `tools/seedtest.py` applies each patch to /repo, runs the quick check of the property
-it breaks, expects exit 1 with VIOLATION lines and restores /repo; results in
+it breaks, expects exit 1 with VIOLATION lines and restores /repo (`tools/parseed.py` does the same
+in parallel lanes, each with private copies mounted over /repo and /verif); results in
 `seeded/RESULTS.json`.  Currently %d of %d are caught.
 
 | id | property | needs, in order to manifest | result |
